@@ -971,9 +971,20 @@ func ruleMeter(c *Ctx) *RuleResult {
 	}
 	r.count("cpusafe_sources", len(sources))
 	r.floor("cpusafe_sources", 100)
+	// a package outside the usual scope comes into scope as soon as one of its functions
+	// is declared cpu-safe (lib/packagelib and lib/golib declare none today)
+	declared := map[string]bool{}
+	for _, reg := range t.Regs {
+		if reg.Flags&t.Bits.Cpu != 0 {
+			for _, sf := range reg.Funcs {
+				declared[relPkg(funcPkgPath(sf))] = true
+			}
+		}
+	}
+	pkgInScope := func(rel string) bool { return meterScope(rel) || declared[rel] }
 	reach := &Reach{p: p, PreciseCallbacks: true}
 	reach.Skip = func(callee *ssa.Function) bool {
-		return p.InModule(callee) && !meterScope(relPkg(funcPkgPath(callee)))
+		return p.InModule(callee) && !pkgInScope(relPkg(funcPkgPath(callee)))
 	}
 	reach.Run(sources, nil)
 	funcs := reach.ReachedModuleFuncs()
@@ -982,7 +993,7 @@ func ruleMeter(c *Ctx) *RuleResult {
 	counts := map[string]int{}
 	usedT := map[string]int{}
 	for _, f := range funcs {
-		if !meterScope(relPkg(funcPkgPath(f))) || f.Blocks == nil {
+		if !pkgInScope(relPkg(funcPkgPath(f))) || f.Blocks == nil {
 			continue
 		}
 		var verdicts []loopVerdict
@@ -1027,6 +1038,108 @@ func ruleMeter(c *Ctx) *RuleResult {
 			r.note("table entry unused: %s", k)
 		}
 	}
+
+	// ---- (b') a library call whose cost is linear in an operand, made inside a loop, is a
+	// nested loop: a loop bounded by one held length times a call linear in another is a
+	// product. Somewhere in the function a charge must depend on the size of an operand
+	// or of the result of such a call (dependency presence), or the call is table-listed.
+	// (Outside any loop such a call is linear in memory already held, like an L loop.)
+	nLinear := 0
+	for _, f := range funcs {
+		if !pkgInScope(relPkg(funcPkgPath(f))) || f.Blocks == nil {
+			continue
+		}
+		inCycle := map[*ssa.BasicBlock]bool{}
+		for _, scc := range blockSCCs(f, nil) {
+			for b := range scc {
+				inCycle[b] = true
+			}
+		}
+		if len(inCycle) == 0 {
+			continue
+		}
+		var charges []ssa.CallInstruction
+		forEachInstr(f, func(ins ssa.Instruction) {
+			if c, ok := ins.(ssa.CallInstruction); ok {
+				if cal := c.Common().StaticCallee(); cal != nil && (isBaseMeter(cal) || isChargeCall(cal)) {
+					charges = append(charges, c)
+				}
+			}
+		})
+		forEachInstr(f, func(ins ssa.Instruction) {
+			call, ok := ins.(*ssa.Call)
+			if !ok {
+				return
+			}
+			cal := call.Call.StaticCallee()
+			if cal == nil || !linearCostStdlib[fullName(cal)] {
+				return
+			}
+			if !inCycle[ins.Block()] {
+				return // once per call of the function: linear in memory already held, like an L loop
+			}
+			nLinear++
+			key := fnKey(f) + "->" + fullName(cal)
+			// sized values: the string / slice operands and the result
+			var sized []ssa.Value
+			for _, a := range call.Call.Args {
+				switch stripConv(a).Type().Underlying().(type) {
+				case *types.Slice:
+					sized = append(sized, stripConv(a))
+				case *types.Basic:
+					if bt := stripConv(a).Type().Underlying().(*types.Basic); bt.Info()&types.IsString != 0 {
+						sized = append(sized, stripConv(a))
+					}
+				case *types.Interface:
+					// a reader: bounded if it comes from io.LimitReader
+					for v := range backSlice(a, true) {
+						if c2, ok := v.(*ssa.Call); ok {
+							if cc := c2.Call.StaticCallee(); cc != nil && fullName(cc) == "io.LimitReader" {
+								sized = nil
+								r.ok(key + ": reads from an io.LimitReader")
+								return
+							}
+						}
+					}
+				}
+			}
+			sized = append(sized, call)
+			if call.Referrers() != nil {
+				for _, ref := range *call.Referrers() {
+					if ex, ok := ref.(*ssa.Extract); ok {
+						sized = append(sized, ex)
+					}
+				}
+			}
+			dep := false
+			for _, ch := range charges {
+				for _, a := range ch.Common().Args[1:] {
+					for v := range backSlice(a, true) {
+						lc, ok := v.(*ssa.Call)
+						if !ok || !isLenCall(lc) {
+							continue
+						}
+						arg := stripConv(lc.Call.Args[0])
+						for _, sv := range sized {
+							if arg == sv || sameValue(arg, sv) || backSlice(arg, false)[sv] || backSlice(sv, false)[arg] {
+								dep = true
+							}
+						}
+					}
+				}
+			}
+			if dep {
+				r.ok(key + ": a charge in the function depends on the size of an operand or of the result")
+				return
+			}
+			if why, ok := linearCallTable[key]; ok {
+				r.ok("table: " + key + " — " + why)
+				return
+			}
+			r.fail("linear-library-call-uncharged:"+key, p.InstrPos(ins), fmt.Sprintf("%s calls %s, inside a loop; its cost grows with the size of its operands, so the loop does work proportional to a product of sizes, and no CPU or memory charge in the function depends on the size of an operand or of the result of that call", fnKey(f), fullName(cal)))
+		})
+	}
+	r.count("linear_cost_library_calls", nLinear)
 
 	// ---- (c) budget plumbing
 	checkBudgetPlumbing(p, r)
@@ -1302,3 +1415,17 @@ func checkCursorWriters(p *Program, r *RuleResult, m *meterInfo) {
 		}
 	}
 }
+
+// linearCostStdlib: standard-library functions whose running time (and often the
+// size of their result) grows with the size of their operands.
+var linearCostStdlib = map[string]bool{
+	"strings.Replace": true, "strings.ReplaceAll": true, "strings.Join": true, "strings.Split": true, "strings.SplitN": true, "strings.Fields": true,
+	"strings.Repeat": true, "strings.ToUpper": true, "strings.ToLower": true, "strings.Map": true, "strings.Count": true, "strings.Title": true,
+	"bytes.Replace": true, "bytes.ReplaceAll": true, "bytes.Join": true, "bytes.Split": true, "bytes.Repeat": true, "bytes.ToUpper": true, "bytes.ToLower": true,
+	"io.ReadAll": true, "io/ioutil.ReadAll": true, "os.ReadFile": true, "io/ioutil.ReadFile": true,
+	"(*regexp.Regexp).ReplaceAllStringFunc": true, "(*regexp.Regexp).ReplaceAllFunc": true, "(*regexp.Regexp).ReplaceAllString": true, "(*regexp.Regexp).ReplaceAll": true,
+	"(*regexp.Regexp).FindAllString": true, "(*regexp.Regexp).FindAllStringIndex": true,
+}
+
+// linearCallTable: linear-cost library calls that need no charge of their own.
+var linearCallTable = map[string]string{}
